@@ -95,6 +95,7 @@ def install_guard() -> None:
 
 def guarded(f, *a, _soft=SOFT_S, **kw):
     """('ok', v) | ('raise', e) | ('timeout', None) with a soft wall-clock budget."""
+    _beat()
     try:
         signal.setitimer(signal.ITIMER_REAL, _soft)
         try:
@@ -167,12 +168,135 @@ class Entry:
         self.extra = None                  # generator of (text, label): payload mutated, checksum recomputed
 
 
+# ------------------------------------------------------------------ journal
+# A call stuck inside one C-level operation never returns to the interpreter, so SIGALRM cannot interrupt it.  The work
+# therefore runs in a forked worker that writes, before every call, a heartbeat and the case it is about to run into
+# memory shared with its supervisor; a heartbeat that stops for STALL_S gets the worker killed and the journalled case
+# re-run alone under the hard budget.
+STALL_S = SOFT_S + 4.0
+_MM = None
+_MM_SIZE = 1 << 21
+_HB = 0
+
+
+def _beat() -> None:
+    global _HB
+    if _MM is not None:
+        _HB += 1
+        _MM[0:8] = _HB.to_bytes(8, "little")
+
+
+def _journal_case(case: dict) -> None:
+    if _MM is None:
+        return
+    try:
+        b = pickle.dumps(case, protocol=4)
+    except Exception:  # noqa: BLE001 - e.g. a memoryview argument: journal its bytes instead
+        try:
+            c2 = dict(case)
+            c2["input"] = _plain(case["input"])
+            b = pickle.dumps(c2, protocol=4)
+        except Exception:  # noqa: BLE001
+            b = pickle.dumps({"name": case.get("name"), "unpicklable": True, "stage": "parse"})
+    if len(b) > _MM_SIZE - 600:
+        b = pickle.dumps({"name": case.get("name"), "too_large": len(b), "stage": "parse"})
+    _MM[8:12] = len(b).to_bytes(4, "little")
+    _MM[528:528 + len(b)] = b
+    _journal_stage("parse")
+
+
+def _journal_stage(stage: str) -> None:
+    if _MM is None:
+        return
+    sb = stage.encode("utf-8", "replace")[:500]
+    _MM[12:16] = len(sb).to_bytes(4, "little")
+    _MM[16:16 + len(sb)] = sb
+    _beat()
+
+
+def _plain(x):
+    if isinstance(x, (bytearray, memoryview)):
+        return bytes(x)
+    if isinstance(x, (list, tuple)):
+        return type(x)(_plain(v) for v in x)
+    return x
+
+
+def _read_journal(mm) -> dict | None:
+    n = int.from_bytes(mm[8:12], "little")
+    if not n:
+        return None
+    try:
+        case = pickle.loads(bytes(mm[528:528 + n]))
+    except Exception:  # noqa: BLE001
+        return None
+    k = int.from_bytes(mm[12:16], "little")
+    case["stage"] = bytes(mm[16:16 + k]).decode("utf-8", "replace") or "parse"
+    return case
+
+
 class Judge:
     """Oracle rules 1-5 around one call; all accounting goes through here."""
 
-    def __init__(self, ctx: Ctx):
+    def __init__(self, ctx: Ctx, dump_path: str | None = None, skip_stages=(), skip_inputs=(), reach=None):
         self.ctx = ctx
         self.pending_timeouts: list = []
+        self.dump_path = dump_path
+        self.skip_stages = set(skip_stages)
+        self.skip_inputs = list(skip_inputs)
+        self.reach = reach
+        self._last_dump = time.time()
+        self._case = None
+
+    # ---- journal
+    def mark(self, e: Entry, mode: str, vi: int, inp) -> bool:
+        """Journal the case about to run.  False: this exact case hung before and is skipped."""
+        case = {"name": e.name, "mode": mode, "variant": vi, "input": inp, "fn": e.fn if e.kind == "pred" else None,
+                "kwargs": e.variants[vi] if e.kind == "pred" else None}
+        for sk in self.skip_inputs:
+            if sk.get("name") == e.name and sk.get("mode") == mode and sk.get("variant") == vi and _same(sk.get("input"), inp):
+                self.ctx.stat("skipped-known-hanging-input")
+                return False
+        self._case = case
+        _journal_case(case)
+        if self.dump_path and time.time() - self._last_dump > 1.5:
+            self.dump()
+        return True
+
+    def stage(self, stage: str) -> bool:
+        """Journal the consumer about to run.  False: a hang was already recorded at this stage."""
+        if stage in self.skip_stages:
+            self.ctx.stat("skipped-known-hanging-stage")
+            return False
+        _journal_stage(stage)
+        return True
+
+    def call(self, e: Entry, mode: str, vi: int, inp, f, *a, **kw):
+        """Journal, then run under the guard; ('skip', None) for a case that is known to hang."""
+        self._skipped = not self.mark(e, mode, vi, inp)
+        if self._skipped:
+            return ("skip", None)
+        return guarded(f, *a, **kw)
+
+    def consume(self, stage: str, f, *a, **kw):
+        """One consumer call of the journalled case; ('skip', None) once a hang was recorded at this stage."""
+        if not self.stage(stage):
+            return ("skip", None)
+        o = guarded(f, *a, **kw)
+        self.ctx.mon("consumer-calls")
+        if o[0] == "timeout":
+            self.consumer_timeout(stage)
+        return o
+
+    def dump(self) -> None:
+        r = self.ctx.result()
+        if self.reach is not None:
+            r["reached"] = {k: v for k, v in self.reach.counts.items() if v}
+        tmp = self.dump_path + ".tmp"
+        with open(tmp, "w") as f:
+            json.dump(r, f)
+        os.replace(tmp, self.dump_path)
+        self._last_dump = time.time()
 
     # ---- rule 1 / 4
     def exception(self, e: Entry, exc: BaseException, inp, how: str, role: str = "parse") -> None:
@@ -194,58 +318,88 @@ class Judge:
                       {"entry": e.name, "how": how, "input": replayable(inp), "exception": f"{type(exc).__name__}: {str(exc)[:300]}",
                        "origin": org})
 
-    # ---- rule 5
+    # ---- rule 5 (interpreter-level slowness; C-level stalls are seen by the supervisor)
     def timeout(self, e: Entry, variant: int, mode: str, inp) -> None:
+        if getattr(self, "_skipped", False):
+            return
         self.ctx.stat("soft-timeout")
-        self.pending_timeouts.append((e.name, variant, mode, inp, e.fn if e.kind == "pred" else None))
+        if self._case is not None:
+            self.pending_timeouts.append(dict(self._case, stage="parse"))
+
+    def consumer_timeout(self, stage: str) -> None:
+        self.ctx.stat("soft-timeout")
+        if self._case is not None:
+            self.pending_timeouts.append(dict(self._case, stage=stage))
 
     def settle_timeouts(self) -> None:
         ctx = self.ctx
-        for name, variant, mode, inp, fn in self.pending_timeouts[:6]:
-            try:
-                size = len(inp) if isinstance(inp, (bytes, str)) else len(pickle.dumps(inp))
-            except Exception:  # noqa: BLE001
-                size = len(repr(inp))
-            res = rerun_alone(name, variant, mode, inp, fn)
-            if res == "finished":
-                ctx.stat("slow-but-terminates")
-                ctx.notes.append(f"{name}: an input of {size} took more than {SOFT_S:.0f}s but finished alone within {HARD_S:.0f}s")
-            elif res == "hang":
-                if size <= MAX_HANG_INPUT:
-                    ctx.violation(f"hang:{name}", f"{name} [{mode}] did not return within {HARD_S:.0f}s on an input of {size}",
-                                  {"entry": name, "how": mode, "input": replayable(inp)})
-                else:
-                    ctx.stat("hang-on-large-input-not-judged")
-            else:
-                ctx.inconclusive_(f"re-run of a slow {name} input failed: {res}")
-        if len(self.pending_timeouts) > 6:
-            ctx.inconclusive_(f"{len(self.pending_timeouts)} inputs exceeded the soft budget; only 6 were re-run alone")
+        for case in self.pending_timeouts[:4]:
+            judge_rerun(ctx, case, rerun_case(case), "soft budget")
+        if len(self.pending_timeouts) > 4:
+            ctx.notes.append(f"{len(self.pending_timeouts)} inputs exceeded the soft budget; 4 were re-run alone")
+            ctx.stat("soft-timeouts-not-rerun", len(self.pending_timeouts) - 4)
         self.pending_timeouts = []
 
 
-def rerun_alone(name: str, variant: int, mode: str, inp, fn=None) -> str:
-    """Run one (entry, input) in a fresh interpreter with the hard budget."""
+def _same(a, b) -> bool:
+    try:
+        return type(_plain(a)) is type(_plain(b)) and _plain(a) == _plain(b)
+    except Exception:  # noqa: BLE001
+        return False
+
+
+def _case_size(case: dict) -> int:
+    inp = case.get("input")
+    try:
+        if isinstance(inp, (bytes, bytearray, memoryview, str)):
+            return len(inp)
+        return len(pickle.dumps(_plain(inp)))
+    except Exception:  # noqa: BLE001
+        return len(repr(inp))
+
+
+def judge_rerun(ctx: Ctx, case: dict, res: str, why: str) -> None:
+    name, stage = case.get("name"), case.get("stage", "parse")
+    size = _case_size(case)
+    where = f"parse:{name}" if stage == "parse" else stage
+    if res == "finished":
+        ctx.stat("slow-but-terminates")
+        ctx.notes.append(f"{name} [{stage}]: an input of {size} exceeded the {why} but finished alone within {HARD_S:.0f}s")
+    elif res == "hang":
+        if size <= MAX_HANG_INPUT:
+            ctx.violation(f"hang@{where}", f"{name} ({stage}, {case.get('mode')}) did not return within {HARD_S:.0f}s, alone in a fresh interpreter, "
+                          f"on an input of {size}", {"entry": name, "stage": stage, "how": case.get("mode"), "variant": case.get("variant"),
+                                                     "input": replayable(_plain(case.get("input")))})
+        else:
+            ctx.stat("hang-on-large-input-not-judged")
+    else:
+        ctx.inconclusive_(f"re-run of a slow {name} input failed: {res}"[:300])
+
+
+def rerun_case(case: dict) -> str:
+    """Run one journalled case (parse and consumers) alone in a fresh interpreter; killed at the hard budget."""
+    if case.get("unpicklable") or case.get("too_large"):
+        return "case could not be journalled (unpicklable or above 2 MiB)"
     with tempfile.TemporaryDirectory(prefix="rv-c19-") as td:
         p = os.path.join(td, "case.pkl")
         try:
             with open(p, "wb") as f:
-                pickle.dump({"name": name, "variant": variant, "mode": mode, "input": inp, "fn": fn}, f)
+                pickle.dump(case, f)
         except Exception as ex:  # noqa: BLE001
             return f"case not picklable: {ex!r}"[:200]
         root = os.path.dirname(os.path.dirname(os.path.dirname(os.path.abspath(__file__))))
         try:
             r = subprocess.run([sys.executable, "-c", "import sys; from rv.props.c19 import _rerun_main; sys.exit(_rerun_main(sys.argv[1]))", p],
-                               cwd=root, capture_output=True, text=True, timeout=HARD_S + 30)
+                               cwd=root, capture_output=True, text=True, timeout=HARD_S)
         except subprocess.TimeoutExpired:
             return "hang"
         if r.returncode == 0:
             return "finished"
-        if r.returncode == 7:
-            return "hang"
-        return f"rc={r.returncode} {r.stderr[-200:]}"
+        return f"rc={r.returncode} {r.stderr[-300:]}"
 
 
 def _rerun_main(path: str) -> int:
+    global SOFT_S
     repo = os.environ.get("VERIF_REPO", "/repo")
     sys.path.insert(0, repo)
     sys.setrecursionlimit(1000)
@@ -258,21 +412,22 @@ def _rerun_main(path: str) -> int:
     from ..gen.hostile import RecStream, Seeds
 
     install_guard()
+    SOFT_S = 10 * HARD_S     # the supervisor's kill is the budget here
+    guarded.__kwdefaults__["_soft"] = SOFT_S
+    ctx = Ctx(PROPERTY, "quick", 0, "rerun", {})
+    J = Judge(ctx)
     if case.get("fn") is not None:
-        e = Entry(case["name"], "pred", case["fn"], [])
-    else:
-        reg = {e.name: e for e in build_registry(Seeds(random.Random(0)), only=case["name"])}
-        e = reg[case["name"]]
+        case["fn"](*case["input"], **(case.get("kwargs") or {}))
+        return 0
+    reg = {e.name: e for e in build_registry(Seeds(random.Random(0)), only=case["name"])}
+    e = reg[case["name"]]
     kw = e.variants[case["variant"]]
     inp = case["input"]
-    if case["mode"] == "stream":
-        call = lambda: e.fn(RecStream(inp + TAIL), **kw)  # noqa: E731
-    elif case["mode"] == "args":
-        call = lambda: e.fn(*inp, **kw)  # noqa: E731
-    else:
-        call = lambda: e.fn(inp, **kw)  # noqa: E731
-    o = guarded(call, _soft=HARD_S)
-    return 7 if o[0] == "timeout" else 0
+    mode = case["mode"]
+    o = guarded(e.fn, RecStream(inp + TAIL), **kw) if mode == "stream" else (guarded(e.fn, RecStream(inp), **kw) if mode == "stream0" else guarded(e.fn, inp, **kw))
+    if o[0] == "ok" and case.get("stage", "parse") != "parse":
+        consume_generic(J, e, o[1], inp, "rerun")
+    return 0
 
 
 # =============================================================== consumers
@@ -300,14 +455,13 @@ def consume_generic(J: Judge, e: Entry, obj, inp, how: str) -> None:
             calls.append((name, lambda n=name: getattr(obj, n)))
     calls += [("str", lambda: str(obj)), ("repr", lambda: repr(obj)), ("eq", lambda: obj == obj)]
     for cname, c in calls:
-        o = guarded(c)
-        ctx.mon("consumer-calls")
+        o = J.consume(f"consumer:{t.__name__}.{cname.split('(')[0]}", c)
         if o[0] == "raise":
             J.exception(e, o[1], inp, f"{how} -> {cname}", role=f"consumer {t.__name__}.{cname}")
-        elif o[0] == "timeout":
+        elif o[0] != "ok":
             ctx.stat("consumer-soft-timeout")
         elif cname == "to_dict":
-            oj = guarded(json.dumps, o[1])
+            oj = J.consume(f"consumer:json.dumps({t.__name__}.to_dict)", json.dumps, o[1])
             if oj[0] == "raise" and not isinstance(oj[1], (TypeError, ValueError)):
                 J.exception(e, oj[1], inp, f"{how} -> json.dumps(to_dict)", role="consumer to_dict")
     if e.consume is not None:
@@ -383,7 +537,7 @@ def run_binary(J: Judge, e: Entry, quota: int, budget: Budget, sys_cap: int) -> 
         accepted_stream = None
         if stream:
             rs = RecStream(m + TAIL)
-            o = guarded(e.fn, rs, **kw)
+            o = J.call(e, "stream", vi, m, e.fn, rs, **kw)
             ctx.mon("calls:stream")
             if o[0] == "raise":
                 J.exception(e, o[1], m, f"stream+tail {kw or ''} {label}")
@@ -392,7 +546,7 @@ def run_binary(J: Judge, e: Entry, quota: int, budget: Budget, sys_cap: int) -> 
                     fm = [(a, w) for a, w in rs.fieldmap() if a + w <= len(m)]
                     if fm:
                         corpus.append((m, fm, depth))
-            elif o[0] == "timeout":
+            elif o[0] != "ok":
                 J.timeout(e, vi, "stream", m)
             else:
                 deep = True
@@ -408,12 +562,12 @@ def run_binary(J: Judge, e: Entry, quota: int, budget: Budget, sys_cap: int) -> 
             # the same octets as a stream that ends with them: a self-delimiting parser that consumed all of them here
             # must stop at the same place, with the same answer, when more octets follow
             rs0 = RecStream(m)
-            o0 = guarded(e.fn, rs0, **kw)
+            o0 = J.call(e, "stream0", vi, m, e.fn, rs0, **kw)
             ctx.mon("calls:stream-no-tail")
             if o0[0] == "raise":
                 J.exception(e, o0[1], m, f"stream {kw or ''} {label}")
                 deep = deep or rs0.deep()
-            elif o0[0] == "timeout":
+            elif o0[0] != "ok":
                 J.timeout(e, vi, "octets", m)
             elif e.eof:
                 ctx.stat(f"exempt-eof:{e.name}")
@@ -433,13 +587,13 @@ def run_binary(J: Judge, e: Entry, quota: int, budget: Budget, sys_cap: int) -> 
         spell = rng.random()
         arg = m if (spell < 0.9 or e.bytes_only) else (bytearray(m) if spell < 0.95 else memoryview(m))
         sp = type(arg).__name__
-        o2 = guarded(e.fn, arg, **kw)
+        o2 = J.call(e, "octets", vi, arg, e.fn, arg, **kw)
         ctx.mon("calls:octets")
         if o2[0] == "raise":
             J.exception(e, o2[1], m, f"{sp} {kw or ''} {label}")
             if not stream and first > 0:
                 deep = True
-        elif o2[0] == "timeout":
+        elif o2[0] != "ok":
             J.timeout(e, vi, "octets", m)
         else:
             deep = True
@@ -471,11 +625,11 @@ def run_binary(J: Judge, e: Entry, quota: int, budget: Budget, sys_cap: int) -> 
             for m, lab, first in M.systematic(s, fm, max(20, per_seed_cap // 6)):
                 test(m, lab, first, 1, vi)
         for txt, lab, first in ([] if e.bytes_only else T.systematic(s[:200].hex(), 25)):
-            o = guarded(e.fn, txt, **e.variants[0])
+            o = J.call(e, "octets", 0, txt, e.fn, txt, **e.variants[0])
             ctx.mon("calls:hex-text")
             if o[0] == "raise":
                 J.exception(e, o[1], txt, f"hex-str {lab}")
-            elif o[0] == "timeout":
+            elif o[0] != "ok":
                 J.timeout(e, 0, "octets", txt)
             ctx.case("binary:hex-text", (e.name, txt))
     for _ in range(max(10, quota // 20)):
@@ -538,9 +692,9 @@ def judge_position(J: Judge, e: Entry, obj, tell: int, m: bytes, label: str, kw)
         ser = functools.partial(ser, include_witness=True)
     elif _required_params(ser):
         return
-    o = guarded(ser)
+    o = J.consume(f"consumer:{type(obj).__name__}.serialize", ser)
     if o[0] != "ok" or not isinstance(o[1], (bytes, bytearray)):
-        o = guarded(ser, check_validity=False) if o[0] == "raise" and is_lib_exc(o[1]) else o
+        o = J.consume(f"consumer:{type(obj).__name__}.serialize", ser, check_validity=False) if o[0] == "raise" and is_lib_exc(o[1]) else o
         if o[0] != "ok" or not isinstance(o[1], (bytes, bytearray)):
             ctx.stat("position:not-serializable")
             return
@@ -588,12 +742,12 @@ def run_text(J: Judge, e: Entry, quota: int, budget: Budget, sys_cap: int) -> No
             return
         seen.add((t, vi))
         kw = e.variants[vi]
-        o = guarded(e.fn, t, **kw)
+        o = J.call(e, "text", vi, t, e.fn, t, **kw)
         ctx.mon("calls:text")
         deep = first > 0
         if o[0] == "raise":
             J.exception(e, o[1], t, f"str {kw or ''} {label}")
-        elif o[0] == "timeout":
+        elif o[0] != "ok":
             J.timeout(e, vi, "text", t)
         else:
             deep = True
@@ -607,11 +761,11 @@ def run_text(J: Judge, e: Entry, quota: int, budget: Budget, sys_cap: int) -> No
                 b = t.encode("utf-8")
             except UnicodeEncodeError:
                 b = t.encode("utf-8", "surrogatepass")
-            o2 = guarded(e.fn, b if rng.random() < 0.8 else bytearray(b), **kw)
+            o2 = J.call(e, "text", vi, b, e.fn, b if rng.random() < 0.8 else bytearray(b), **kw)
             ctx.mon("calls:text-as-bytes")
             if o2[0] == "raise":
                 J.exception(e, o2[1], b, f"bytes-spelling {label}")
-            elif o2[0] == "timeout":
+            elif o2[0] != "ok":
                 J.timeout(e, vi, "text", b)
         if deep:
             ctx.mon(deep_name)
@@ -680,7 +834,7 @@ def run_json(J: Judge, e: Entry, quota: int, budget: Budget, per_path: int | Non
 
     def test(v, label: str, path, depth: int, vi: int = 0) -> None:
         kw = e.variants[vi]
-        o = guarded(e.fn, v, **kw)
+        o = J.call(e, "json", vi, v, e.fn, v, **kw)
         ctx.mon("calls:json")
         top_ok = isinstance(v, dict)
         if o[0] == "raise":
@@ -688,7 +842,7 @@ def run_json(J: Judge, e: Entry, quota: int, budget: Budget, per_path: int | Non
                 J.exception(e, o[1], v, f"json {kw or ''} {label} at {'/'.join(map(str, path))}")
             elif not is_lib_exc(o[1]):
                 ctx.stat(f"json:toplevel-nonobject:{type(o[1]).__name__}")
-        elif o[0] == "timeout":
+        elif o[0] != "ok":
             J.timeout(e, vi, "json", v)
         else:
             ctx.stat("accepted:json")
@@ -738,12 +892,10 @@ def _tx_consumer(J: Judge, e: Entry, obj, inp, how: str) -> None:
     prevouts = [TxOut(rng.choice([0, 1, 10**8]), ScriptPubKey(rng.choice(spks), check_validity=False), check_validity=False) for _ in tx.vin]
     for i in range(min(len(tx.vin), 3)):
         for ht in (1, 3, 0x83, rng.choice([0, 2, 0x81, 0x82, 4, 255])):
-            o = guarded(sig_hash.from_tx, prevouts, tx, i, ht)
-            ctx.mon("consumer-calls")
+            o = J.consume("consumer:sig_hash.from_tx", sig_hash.from_tx, prevouts, tx, i, ht)
             if o[0] == "raise":
                 J.exception(e, o[1], inp, f"{how} -> sig_hash.from_tx(i={i}, hash_type={ht})", role="consumer sig_hash.from_tx")
-        o = guarded(verify_input, prevouts, tx, i)
-        ctx.mon("consumer-calls")
+        o = J.consume("consumer:engine.verify_input", verify_input, prevouts, tx, i)
         if o[0] == "raise":
             J.exception(e, o[1], inp, f"{how} -> verify_input(i={i})", role="consumer engine.verify_input")
     ctx.mon("consumer:tx-sighash-engine")
@@ -758,42 +910,39 @@ def _psbt_consumer(J: Judge, e: Entry, obj, inp, how: str) -> None:
         return
     for i in range(min(len(obj.inputs), 2)):
         for name, f in (("ecdsa_sig_hash", P.ecdsa_sig_hash), ("taproot_sig_hash", P.taproot_sig_hash)):
-            o = guarded(f, obj, i)
-            ctx.mon("consumer-calls")
+            o = J.consume(f"consumer:psbt.{name}", f, obj, i)
             if o[0] == "raise":
                 J.exception(e, o[1], inp, f"{how} -> psbt.{name}({i})", role=f"consumer psbt.{name}")
     for name in ("finalize", "extract_tx", "combine"):
         f = getattr(P, name, None)
         if f is None:
             continue
-        o = guarded(f, [obj, obj]) if name == "combine" else guarded(f, obj)
-        ctx.mon("consumer-calls")
+        o = J.consume(f"consumer:psbt.{name}", f, [obj, obj]) if name == "combine" else J.consume(f"consumer:psbt.{name}", f, obj)
         if o[0] == "raise":
             J.exception(e, o[1], inp, f"{how} -> psbt.{name}", role=f"consumer psbt.{name}")
-    so = guarded(obj.serialize)
+    so = J.consume("consumer:Psbt.serialize", obj.serialize)
     if so[0] == "ok":
-        o = guarded(PsbtView, so[1])
-        ctx.mon("consumer-calls")
+        o = J.consume("consumer:PsbtView", PsbtView, so[1])
         if o[0] == "raise":
             J.exception(e, o[1], inp, f"{how} -> PsbtView(serialize())", role="consumer PsbtView")
     ctx.mon("consumer:psbt")
 
 
-def _attr_call(obj, name: str, args: tuple):
+def _attr_call(J: Judge, obj, name: str, args: tuple):
     """A property is read, a method is called with ``args``; both under the guard."""
     import functools
 
+    stage = f"consumer:{type(obj).__name__}.{name}"
     if isinstance(getattr(type(obj), name, None), (property, functools.cached_property)):
-        return guarded(getattr, obj, name)
-    return guarded(lambda: getattr(obj, name)(*args))
+        return J.consume(stage, getattr, obj, name)
+    return J.consume(stage, lambda: getattr(obj, name)(*args))
 
 
 def _script_list_consumer(J: Judge, e: Entry, obj, inp, how: str) -> None:
     from btclib.script import script as S
 
     if isinstance(obj, list):
-        o = guarded(S.serialize, obj)
-        J.ctx.mon("consumer-calls")
+        o = J.consume("consumer:script.serialize", S.serialize, obj)
         if o[0] == "raise":
             J.exception(e, o[1], inp, f"{how} -> script.serialize(parsed)", role="consumer script.serialize")
 
@@ -804,8 +953,7 @@ def _descriptor_consumer(J: Judge, e: Entry, obj, inp, how: str) -> None:
                        ("script_pub_key", (2**31 - 1,)), ("is_ranged", ())):
         if not hasattr(type(obj), name):
             continue
-        o = _attr_call(obj, name, args)
-        ctx.mon("consumer-calls")
+        o = _attr_call(J, obj, name, args)
         if o[0] == "raise":
             J.exception(e, o[1], inp, f"{how} -> Descriptor.{name}{args}", role=f"consumer Descriptor.{name}")
 
@@ -817,8 +965,7 @@ def _miniscript_consumer(J: Judge, e: Entry, obj, inp, how: str) -> None:
                  "max_satisfaction_witness_elements"):
         if not hasattr(type(obj), name):
             continue
-        o = _attr_call(obj, name, ())
-        ctx.mon("consumer-calls")
+        o = _attr_call(J, obj, name, ())
         if o[0] == "raise":
             J.exception(e, o[1], inp, f"{how} -> Miniscript.{name}", role=f"consumer Miniscript.{name}")
 
@@ -829,15 +976,15 @@ def _filter_consumer(J: Judge, e: Entry, obj, inp, how: str) -> None:
     rng = ctx.rng
     for el in (b"", b"\x6a", bytes(25), bytes(rng.randrange(256) for _ in range(rng.randrange(1, 40))), "00", bytearray(b"\x51")):
         for name, arg in (("match", el), ("match_any", [el, b"\x51"]), ("match_any", [])):
-            o = guarded(getattr(obj, name), arg)
+            o = J.consume(f"consumer:BasicBlockFilter.{name}", getattr(obj, name), arg)
             ctx.mon("pred:BasicBlockFilter.match")
             judge_predicate(J, e, f"BasicBlockFilter.{name}", o, (inp, arg))
 
 
 def judge_predicate(J: Judge, e: Entry, pname: str, o, args) -> None:
     ctx = J.ctx
-    if o[0] == "timeout":
-        ctx.stat("predicate-soft-timeout")
+    if o[0] in ("timeout", "skip"):
+        ctx.stat("predicate-soft-timeout-or-skipped")
         return
     if o[0] == "raise":
         exc = o[1]
@@ -1160,8 +1307,7 @@ def _psbtview_consumer(J: Judge, e: Entry, obj, inp, how: str) -> None:
                        ("ecdsa_sig_hash", (0,)), ("taproot_sig_hash", (0,))):
         if not hasattr(type(obj), name):
             continue
-        o = _attr_call(obj, name, args)
-        ctx.mon("consumer-calls")
+        o = _attr_call(J, obj, name, args)
         if o[0] == "raise":
             J.exception(e, o[1], inp, f"{how} -> PsbtView.{name}{args}", role=f"consumer PsbtView.{name}")
 
@@ -1202,7 +1348,7 @@ def _nest_origin(d: int) -> list[str]:
 
 
 # ============================================================== predicates
-def run_predicates(J: Judge, which: str, quota: int, budget: Budget) -> None:
+def run_predicates(J: Judge, only: str | None, quota: int, budget: Budget) -> None:
     """Rule 2: each verifier on valid arguments (must answer True), then with every slot replaced by other values of its declared type."""
     from btclib import b32, b58, bip322
     from btclib.block import merkle_proof
@@ -1369,7 +1515,6 @@ def run_predicates(J: Judge, which: str, quota: int, budget: Budget) -> None:
         preds.append(("proof_of_work.is_negative_bits", is_negative_bits, (bytes.fromhex("01803456"),), (O,), {}))
     except ImportError:
         pass
-    preds = [p for i, p in enumerate(preds) if which == "all" or (i % 2 == (0 if which == "even" else 1))]
     dummy = Entry("predicates", "pred", None, [])
 
     def mutate(kind, v):
@@ -1450,35 +1595,36 @@ def run_predicates(J: Judge, which: str, quota: int, budget: Budget) -> None:
             return b"\x00"
 
     for name, fn, valid, kinds, kw in preds:
+        if only is not None and name != only:
+            continue
+        pe = Entry(name, "pred", fn, [], variants=[kw])
         o = guarded(fn, *valid, **kw)
         if o[0] != "ok" or o[1] is not True:
             ctx.inconclusive_(f"predicate fixture {name} does not answer True on its valid arguments: {o[1]!r}"[:300])
             continue
         ctx.mon(f"pred-valid-true:{name}")
-    done = 0
-    per = max(60, quota // max(1, len(preds)))
-    for name, fn, valid, kinds, kw in preds:
         seen = 0
-        while seen < per and not budget.over():
+        while seen < quota and not budget.over():
             args = list(valid)
             slots = rng.sample(range(len(args)), rng.choice([1, 1, 1, 2, len(args)]) if len(args) > 1 else 1)
             for i in slots:
                 args[i] = mutate(kinds[i], args[i])
-            o = guarded(fn, *args, **kw)
+            o = J.call(pe, "args", 0, tuple(args), fn, *args, **kw)
+            seen += 1
+            if o[0] == "skip":
+                continue
             ctx.mon(f"pred:{name}")
             ctx.mon(f"deep:{name}")
             ctx.mon(f"inputs:{name}")
             judge_predicate(J, dummy, name, o, args)
             if o[0] == "timeout":
-                J.timeout(Entry(name, "pred", fn, []), 0, "args", tuple(args))
+                J.timeout(pe, 0, "args", tuple(args))
             try:
                 key = (name, repr(args)[:3000])
             except Exception:  # noqa: BLE001
                 key = (name, seen)
             ctx.case("predicate:" + "+".join(str(kinds[i] if isinstance(kinds[i], str) else kinds[i][0]) for i in sorted(slots)), key,
                      sample={"predicate": name, "args": short(args, 100)})
-            seen += 1
-            done += 1
 
 
 # ================================================================== shards
@@ -1515,47 +1661,170 @@ def _entries_of(reg: list[Entry], group: str) -> list[Entry]:
     return sorted((e for e in reg if e.kind == group), key=lambda e: e.name)
 
 
+def _merge(ctx: Ctx, r: dict) -> None:
+    """Fold a worker's (possibly partial) result into the shard's context."""
+    from ..ctx import MAX_SAMPLES, MAX_VIOLATIONS_KEPT
+
+    ctx.evaluations += r.get("evaluations", 0)
+    ctx._bulk_distinct += r.get("distinct_nontrivial", 0)
+    for k, tgt in (("classes", ctx.classes), ("monitors", ctx.monitors), ("arms", ctx.arms), ("reached", ctx.reached), ("stats", ctx.stats),
+                   ("selftest", ctx.selftest), ("violation_mechs", ctx.violation_mechs)):
+        tgt.update(r.get(k, {}))
+    for v in r.get("violations", []):
+        if len(ctx.violations) < MAX_VIOLATIONS_KEPT and sum(1 for w in ctx.violations if w["mechanism"] == v["mechanism"]) < 3:
+            v["shard"] = ctx.shard
+            ctx.violations.append(v)
+    for smp in r.get("samples", []):
+        if len(ctx.samples) < MAX_SAMPLES and smp["class"] not in ctx._sample_classes:
+            ctx._sample_classes.add(smp["class"])
+            ctx.samples.append(smp)
+    for x in r.get("inconclusive", []):
+        ctx.inconclusive_(x)
+    for x in r.get("exhaustive", []):
+        if x not in ctx.exhaustive:
+            ctx.exhaustive.append(x)
+    ctx.notes.extend(r.get("notes", [])[:6])
+
+
+def supervise(ctx: Ctx, label: str, work, deadline: float) -> None:
+    """Run ``work(child_ctx, J)`` in forked workers under a heartbeat; a stalled worker is killed, its journalled case re-run
+    alone (rule 5), and a new worker resumes with that stage / input excluded."""
+    import mmap
+    import random
+
+    global _MM, _HB
+    skip_stages: set = set()
+    skip_inputs: list = []
+    attempt = 0
+    while True:
+        mm = mmap.mmap(-1, _MM_SIZE)
+        fd, res_path = tempfile.mkstemp(prefix="rv-c19-res-", suffix=".json")
+        os.close(fd)
+        os.unlink(res_path)
+        pid = os.fork()
+        if pid == 0:  # ------------------------------------------------ worker
+            code = 0
+            try:
+                _MM, _HB = mm, 0
+                cctx = Ctx(ctx.prop, ctx.tier, ctx.seed, ctx.shard, ctx.params)
+                cctx.rng = random.Random(f"{ctx.prop}:{ctx.seed}:{ctx.shard}:{label}:{attempt}")
+                cctx.deadline = min(ctx.deadline, deadline)
+                reach = _reach()
+                J = Judge(cctx, res_path, skip_stages, skip_inputs, reach)
+                try:
+                    work(cctx, J)
+                    J.settle_timeouts()
+                except _SoftTimeout:
+                    cctx.stat("soft-timeout-outside-guard")
+                except BaseException as ex:  # noqa: BLE001
+                    tb = traceback.format_exc()
+                    org = lib_origin(ex)
+                    if org is not None and not isinstance(ex, (KeyboardInterrupt, SystemExit)):
+                        cctx.violation(f"crash:{type(ex).__name__}@{org}", f"uncaught {type(ex).__name__} from the library while working on {label}: {ex}"[:500],
+                                       {"traceback": tb[-1500:]})
+                    else:
+                        cctx.inconclusive_(f"harness error while working on {label}: {tb[-600:]}")
+                reach.stop()
+                J.dump()
+            except BaseException:  # noqa: BLE001
+                code = 3
+            finally:
+                os._exit(code)
+        # ------------------------------------------------------------ supervisor
+        last_hb, last_change = -1, time.time()
+        status = None
+        while True:
+            done, st = os.waitpid(pid, os.WNOHANG)
+            if done:
+                status = "done" if os.WIFEXITED(st) and os.WEXITSTATUS(st) == 0 else f"died:{st}"
+                break
+            hb = int.from_bytes(mm[0:8], "little")
+            now = time.time()
+            if hb != last_hb:
+                last_hb, last_change = hb, now
+            elif now - last_change > STALL_S:
+                os.kill(pid, signal.SIGKILL)
+                os.waitpid(pid, 0)
+                status = "stalled"
+                break
+            time.sleep(0.1)
+        part = None
+        if os.path.exists(res_path):
+            try:
+                with open(res_path) as f:
+                    part = json.load(f)
+            except Exception:  # noqa: BLE001
+                part = None
+            for q in (res_path, res_path + ".tmp"):
+                if os.path.exists(q):
+                    os.unlink(q)
+        if part:
+            _merge(ctx, part)
+        if status == "done":
+            mm.close()
+            return
+        if status != "stalled":
+            ctx.inconclusive_(f"worker for {label} ended abnormally ({status})")
+            mm.close()
+            return
+        case = _read_journal(mm)
+        mm.close()
+        ctx.stat("worker-stalled")
+        if case is None:
+            ctx.inconclusive_(f"worker for {label} stalled before journalling a case")
+            return
+        res = rerun_case(case)
+        judge_rerun(ctx, case, res, f"{STALL_S:.0f}s heartbeat")
+        if case.get("stage", "parse") == "parse":
+            skip_inputs.append(case)
+        else:
+            skip_stages.add(case["stage"])
+        attempt += 1
+        if attempt >= 5 or time.time() > deadline:
+            ctx.notes.append(f"{label}: gave up resuming after {attempt} stalls")
+            return
+
+
 def shard_entries(ctx: Ctx) -> None:
     from ..gen.hostile import Seeds
 
     install_guard()
-    reach = _reach()
     S = Seeds(ctx.rng)
     reg = build_registry(S)
     grp, part, of = ctx.params["group"], ctx.params["part"], ctx.params["of"]
     mine = _entries_of(reg, grp)[part::of]
-    J = Judge(ctx)
-    total_w = sum(e.weight for e in mine) or 1.0
     t_end = ctx.deadline
     for k, e in enumerate(mine):
         left = max(1.0, t_end - time.time())
         rest_w = sum(x.weight for x in mine[k:]) or 1.0
-        budget = Budget(ctx, left * e.weight / rest_w)
+        slice_s = left * e.weight / rest_w
         quota = int(ctx.params["quota"] * e.weight)
-        try:
+
+        def work(cctx: Ctx, J: Judge, e=e, slice_s=slice_s, quota=quota) -> None:
+            budget = Budget(cctx, slice_s)
             if e.kind in ("stream", "octets"):
-                run_binary(J, e, quota, budget, ctx.params["sys_cap"])
+                run_binary(J, e, quota, budget, cctx.params["sys_cap"])
             elif e.kind == "text":
-                run_text(J, e, quota, budget, ctx.params["sys_cap"])
+                run_text(J, e, quota, budget, cctx.params["sys_cap"])
             else:
-                run_json(J, e, quota, budget, 40 if ctx.tier == "quick" else None)
-        except _SoftTimeout:
-            ctx.stat("soft-timeout-outside-guard")
-        J.settle_timeouts()
+                run_json(J, e, quota, budget, 40 if cctx.tier == "quick" else None)
+
+        supervise(ctx, e.name, work, time.time() + slice_s + 3 * HARD_S)
         ctx.mon(f"ran:{e.name}")
-    _ = total_w
-    reach.stop()
-    reach.report(ctx)
 
 
 def shard_pred(ctx: Ctx) -> None:
     install_guard()
-    reach = _reach()
-    J = Judge(ctx)
-    run_predicates(J, ctx.params["which"], ctx.params["quota"], Budget(ctx, ctx.params["_budget_s"]))
-    J.settle_timeouts()
-    reach.stop()
-    reach.report(ctx)
+    names = [n for i, n in enumerate(PREDICATE_NAMES) if i % 2 == (0 if ctx.params["which"] == "even" else 1)]
+    per = max(60, ctx.params["quota"] // max(1, len(names)))
+    t_end = ctx.deadline
+    for k, name in enumerate(names):
+        slice_s = max(1.0, t_end - time.time()) / (len(names) - k)
+
+        def work(cctx: Ctx, J: Judge, name=name, slice_s=slice_s) -> None:
+            run_predicates(J, name, per, Budget(cctx, slice_s))
+
+        supervise(ctx, name, work, time.time() + slice_s + 3 * HARD_S)
 
 
 def _ident_key(x) -> str:
